@@ -314,4 +314,30 @@ theorem renamePNList_id : ∀ (l : List (PN V)), renamePNList (fun i => i) l = l
   | n :: rest => by simp [renamePNList, renamePN_id n, renamePNList_id rest]
 end
 
+/-! ### the counter of a collection rebuilt from database rows -/
+
+theorem nextPosition_gt : ∀ (ps : List (Option Nat)) (k : Nat), some k ∈ ps → k < nextPosition ps
+  | [], k, h => by simp at h
+  | none :: rest, k, h => by
+      simp only [List.mem_cons] at h
+      rcases h with h | h
+      · cases h
+      · simpa [nextPosition] using nextPosition_gt rest k h
+  | some j :: rest, k, h => by
+      simp only [List.mem_cons, Option.some.injEq] at h
+      simp only [nextPosition]
+      rcases h with h | h
+      · subst h; exact Nat.lt_of_lt_of_le (Nat.lt_succ_self _) (Nat.le_max_left _ _)
+      · exact Nat.lt_of_lt_of_le (nextPosition_gt rest k h) (Nat.le_max_right _ _)
+
+theorem nextPosition_le_of_all_lt : ∀ (ps : List (Option Nat)) (n : Nat),
+    (∀ k, some k ∈ ps → k < n) → nextPosition ps ≤ n
+  | [], n, _ => by simp [nextPosition]
+  | none :: rest, n, h => by
+      simp only [nextPosition]
+      exact nextPosition_le_of_all_lt rest n (fun k hk => h k (List.mem_cons_of_mem _ hk))
+  | some j :: rest, n, h => by
+      simp only [nextPosition]
+      exact Nat.max_le.mpr ⟨h j (by simp), nextPosition_le_of_all_lt rest n (fun k hk => h k (List.mem_cons_of_mem _ hk))⟩
+
 end AF
